@@ -1389,13 +1389,19 @@ class Interp:
             raise Unsupported(f"ndarray.{name}")
         if isinstance(v, dict):
             if name in DICT_METHODS:
-                return Builtin("dict." + name, lambda it, a, k, _m=DICT_METHODS[name], _v=v: _m(_v, a, k))
+                def dmeth(it, a, k, _m=DICT_METHODS[name], _v=v, _n=name):
+                    if it.guards and _n in ("update", "setdefault", "pop"):
+                        raise Unsupported("dictionary changed under an undecided test")
+                    return _m(_v, a, k)
+                return Builtin("dict." + name, dmeth)
             raise Unsupported(f"dict.{name}")
         if isinstance(v, list):
-            if name == "append":
-                return Builtin("list.append", lambda it, a, k, _v=v: _v.append(a[0]))
-            if name == "extend":
-                return Builtin("list.extend", lambda it, a, k, _v=v: _v.extend(it.iterate(a[0])))
+            if name in ("append", "extend"):
+                def lmeth(it, a, k, _v=v, _n=name):
+                    if it.guards:
+                        raise Unsupported("list changed under an undecided test")
+                    return _v.append(a[0]) if _n == "append" else _v.extend(it.iterate(a[0]))
+                return Builtin("list." + name, lmeth)
             if name == "index":
                 return Builtin("list.index", lambda it, a, k, _v=v: [_hashable(x) for x in _v].index(_hashable(a[0])))
             raise Unsupported(f"list.{name}")
@@ -1934,6 +1940,8 @@ class Interp:
             return base[k]
         if isinstance(base, LU):
             return self.index(lu_parts(base), key)
+        if isinstance(base, IndexMaker):
+            return key
         if isinstance(base, Und):
             raise Unsupported(f"subscript of a value that depends on an undecided test ({base.desc})")
         if base is None or isinstance(base, (bool, int, Rat)) or (isinstance(base, Opaque) and base.inert):
@@ -2539,6 +2547,32 @@ def _np_diagonal(it, a, k):
     return NDArr(m.st, (n,), [m.ix[i * m.shape[1] + i] for i in range(n)])     # a view, as in numpy
 
 
+def _np_where(it, a, k):
+    c = to_array(a[0])
+    fl = c.flat()
+    if any(not isinstance(x, bool) and not (is_num(x) and R(x).is_const()) for x in fl):
+        raise Unsupported("np.where on a condition with symbolic entries")
+    truth = [x if isinstance(x, bool) else R(x).const_value() != 0 for x in fl]
+    if len(a) == 1:
+        return _np_nonzero(it, [NDArr.new(c.shape, truth)], {})
+    shape = _broadcast(_broadcast(c.shape, to_array(a[1]).shape), to_array(a[2]).shape)
+    tc, xa, xb = _bc_entries(NDArr.new(c.shape, truth), shape), _bc_entries(to_array(a[1]), shape), _bc_entries(to_array(a[2]), shape)
+    return NDArr.new(shape, [p if t else q for t, p, q in zip(tc, xa, xb)])
+
+
+def _np_take(it, a, k):
+    v = to_array(a[0])
+    axis = a[2] if len(a) > 2 else k.get("axis")
+    if axis is None:
+        return it.index(v.reshape((-1,)), a[1])
+    ax = _as_int(axis) % v.ndim
+    return it.index(v, tuple([slice(None)] * ax + [a[1]]))
+
+
+class IndexMaker:
+    """np.s_ / np.index_exp: subscripting it yields the key itself"""
+
+
 def _np_outer(it, a, k):
     x, y = to_array(a[0]).reshape((-1,)), to_array(a[1]).reshape((-1,))
     return NDArr.new((x.size, y.size), [s_bin("*", p, q) for p in x.flat() for q in y.flat()])
@@ -2726,6 +2760,7 @@ EXTERNALS = {
     "numpy.concatenate": _np_concat(0), "numpy.vstack": _np_concat(0, "v"), "numpy.hstack": lambda it, a, k: _np_concat(0 if to_array(it.iterate(a[0])[0]).ndim == 1 else 1)(it, [it.iterate(a[0])], k),
     "numpy.column_stack": _np_concat(1, "c"), "numpy.stack": _np_concat(0, None, True), "numpy.row_stack": _np_concat(0, "v"),
     "numpy.fill_diagonal": _np_fill_diagonal, "numpy.diagonal": _np_diagonal, "numpy.trace": lambda it, a, k: _arr_sum(it, _np_diagonal(it, [a[0]], {}), [], {}),
+    "numpy.where": _np_where, "numpy.take": _np_take,
     "numpy.einsum": _np_einsum, "numpy.outer": _np_outer, "numpy.full": _np_full, "numpy.squeeze": _np_squeeze, "numpy.expand_dims": _np_expand_dims,
     "numpy.flip": _np_flip, "numpy.linalg.multi_dot": _np_multi_dot, "numpy.inner": lambda it, a, k: _np_einsum(it, ["i,i", a[0], a[1]], {}) if to_array(a[0]).ndim == 1 and to_array(a[1]).ndim == 1 else (_ for _ in ()).throw(Unsupported("np.inner of matrices")),
     "numpy.sum": lambda it, a, k: _arr_sum(it, to_array(a[0]), a[1:], k), "numpy.asarray_chkfinite": _np_asarray, "numpy.asanyarray": _np_asarray,
@@ -2759,7 +2794,7 @@ EXTERNALS = {
 }
 EXTERNALS["warnings.warn"] = lambda it, a, k: None
 LENIENT = {"warnings.warn"}
-EXTERNAL_VALUES = {"numpy.newaxis": None, "numpy.float64": FLOAT, "numpy.complex128": COMPLEX, "numpy.bool_": "bool", "numpy.pi": F.sym("pi"),
+EXTERNAL_VALUES = {"numpy.s_": IndexMaker(), "numpy.index_exp": IndexMaker(), "numpy.newaxis": None, "numpy.float64": FLOAT, "numpy.complex128": COMPLEX, "numpy.bool_": "bool", "numpy.pi": F.sym("pi"),
                    "numpy.ndarray": Opaque("numpy.ndarray")}
 
 
@@ -2898,7 +2933,16 @@ ARRAY_METHODS = {
     "conj": lambda it, v, a, k: v,
 }
 
+def _dict_update(d, a, k):
+    for src in list(a) + [k]:
+        for kk, vv in (src.items() if isinstance(src, dict) else src):
+            d[_hashable(kk)] = vv
+
+
 DICT_METHODS = {
+    "update": _dict_update,
+    "setdefault": lambda d, a, k: d.setdefault(_hashable(a[0]), a[1] if len(a) > 1 else None),
+    "pop": lambda d, a, k: d.pop(_hashable(a[0]), *a[1:]) if (_hashable(a[0]) in d or len(a) > 1) else (_ for _ in ()).throw(PyRaise("KeyError", repr(a[0]))),
     "items": lambda d, a, k: [(kk, vv) for kk, vv in d.items()],
     "keys": lambda d, a, k: list(d.keys()),
     "values": lambda d, a, k: list(d.values()),
@@ -3127,6 +3171,7 @@ PY_BUILTINS = {
     "type": Builtin("type", _b_type), "id": Builtin("id", _b_id), "map": Builtin("map", _b_map), "filter": Builtin("filter", _b_filter),
     "min": Builtin("min", _b_minmax("min")), "max": Builtin("max", _b_minmax("max")),
     "any": Builtin("any", _b_anyall("any")), "all": Builtin("all", _b_anyall("all")), "sorted": Builtin("sorted", _b_sorted),
+    "vars": Builtin("vars", lambda it, a, k: a[0].attrs if a and isinstance(a[0], Obj) else (_ for _ in ()).throw(Unsupported("vars()"))),
     "callable": Builtin("callable", lambda it, a, k: isinstance(a[0], (Func, Bound, Builtin, Opaque, ClassRef))),
     "object": Opaque("object"), "Ellipsis": Ellipsis, "NotImplemented": Opaque("NotImplemented"),
     "RuntimeWarning": Opaque("RuntimeWarning"), "UserWarning": Opaque("UserWarning"), "DeprecationWarning": Opaque("DeprecationWarning"),
